@@ -307,6 +307,38 @@ def run_unit(unit, tier='quick', _extra_fns=None):
                 # a `loop { .. break .. }` where the unit expected a `while`: the invariant it spliced does not say what holds at
                 # the exits, so nothing after the loop can be concluded
                 bare += 1
+            else:
+                # the loop has an invariant, written for the loop of the unchanged tree: a loop that assigns a variable declared
+                # before it which the invariant does not mention carries something out that the invariant says nothing about
+                ob2 = body_.find('{', lm.start() + len(head_))
+                if ob2 >= 0:
+                    depth, q = 0, ob2
+                    while q < len(body_):
+                        depth += (body_[q] == '{') - (body_[q] == '}')
+                        if depth == 0:
+                            break
+                        q += 1
+                    lb = body_[ob2:q]
+                    # what a nested loop assigns is the business of that loop's invariant: leave nested loop bodies out
+                    while True:
+                        nm = re.search(r'^[ \t]*(while|for|loop)\b', lb[1:], re.M)
+                        if not nm:
+                            break
+                        h2 = re.search(r'\n[ \t]*\{[ \t]*\n|\{[ \t]*\n', lb[1 + nm.start():])
+                        if not h2:
+                            break
+                        o3 = lb.find('{', 1 + nm.start() + h2.start())
+                        d3, q3 = 0, o3
+                        while q3 < len(lb):
+                            d3 += (lb[q3] == '{') - (lb[q3] == '}')
+                            if d3 == 0:
+                                break
+                            q3 += 1
+                        lb = lb[:1 + nm.start()] + lb[q3 + 1:]
+                    declared = set(re.findall(r'\blet (?:ghost )?(?:mut )?(\w+)', lb))
+                    assigned = set(re.findall(r'^[ \t]*(\w+)\s*(?:\+|-|\*)?=(?!=)', lb, re.M))
+                    if any(v not in declared and not re.search(r'\b%s\b' % re.escape(v), head_) for v in assigned):
+                        bare += 1
         oid_ = '%s.%s.%s' % (pid, U['short'], label_)
         fails_ = [o for o in obligations if o['status'] == 'fail' and (o['id'] == oid_ or o['id'].startswith(oid_ + '.'))]
         if bare and fails_:
